@@ -6,7 +6,7 @@ from manifest_src import CHECKS, NOT_APPLICABLE, HOOK_COMMITS
 V = os.path.dirname(os.path.dirname(os.path.abspath(__file__)))
 m = {
  "version": 1,
- "setup_cmd": "cd /verif && cp /repo/go.sum harness/go.sum && cd harness && GOFLAGS=-mod=mod GOPROXY=off go build -tags verif -o bin/ ./cmd/...",
+ "setup_cmd": "cd /verif && cp /repo/go.sum harness/go.sum && cd harness && GOFLAGS=-mod=mod GOPROXY=off go build -tags verif -o bin/ ./cmd/... && GOFLAGS=-mod=mod GOPROXY=off go build -race -tags verif -o bin/vscan-race ./cmd/vscan",
  "hooks": {
   "guard": "verif",
   "enable": "go build -tags verif (the harness module /verif/harness replaces github.com/google/osv-scalibr with /repo)",
